@@ -10,6 +10,13 @@ fn main() {
         std::process::exit(2);
     }
     let id = args[0].clone();
+    if id == "gen-vectors" {
+        // bpcheck gen-vectors <out.json> <description of the tree it was recorded from>
+        let f = bpv::props::c19::gen_vectors(args.get(2).map(|s| s.as_str()).unwrap_or("unknown"));
+        std::fs::write(&args[1], serde_json::to_string(&f).unwrap()).expect("write vectors");
+        eprintln!("wrote {} vectors", f.vectors.len());
+        return;
+    }
     let mut tier = match std::env::var("VERIF_TIER").as_deref() {
         Ok("thorough") => Tier::Thorough,
         _ => Tier::Quick,
